@@ -1332,9 +1332,11 @@ class Engine:
             #If self.process was set  i.e. a process was launched successfully, _taskFinished is always set
 
             # Cache ivars accessed multiple times
+            # VV: self.process is set before self._taskFinished: read them in the opposite order so that a task that
+            #     is launched and finishes in between does not leave us with taskFinished but no process
+            taskFinished = self._taskFinished
             process = self.process
             runCalled = self._runCalled
-            taskFinished = self._taskFinished
 
             #isAlive() and returncode() are both functions of exitReason().
             #This can lead to inconsistencies if e.g. exitReason() is accessed and then change beforee `returncode` is accessed
@@ -1358,8 +1360,8 @@ class Engine:
                 'lastTaskRunTime': runTime,
                 'lastTaskRunState': process.status if process is not None else 'N/A',
                 'lastTaskFinishedDate': taskFinished,
-                'lastTaskExitCode': process.returncode if taskFinished is not None else 'N/A',
-                'lastTaskExitReason': process.exitReason if taskFinished is not None else 'N/A',
+                'lastTaskExitCode': process.returncode if (taskFinished is not None and process is not None) else 'N/A',
+                'lastTaskExitReason': process.exitReason if (taskFinished is not None and process is not None) else 'N/A',
                 'engineExitCode': returncode,
                 'engineExitReason': exitReason,
                 'schedulerId': process.schedulerId if process is not None else 'N/A',
